@@ -190,9 +190,43 @@ let rec strip_ranges_s (s : string) : string =
   done;
   Buffer.contents b
 
+(* the registry named by a spec is the result of REGISTERING its items in order (a repeated tag is a
+   re-registration), through the registry model proved to be a finite map *)
+let parse_registry (s : string) : registry option =
+  if s = "-" then None
+  else if s = "+" then Some reg_empty
+  else
+    Some (List.fold_left (fun r item ->
+        match String.split_on_char ':' item with
+        | [t; h] -> reg_register r (coq_bytes_of_string t) (z_of_int (min 5 (int_of_string h)))
+        | _ -> failwith "bad registry") reg_empty (String.split_on_char ',' s))
+
+let opts_of (r : registry option) (mode : z) (eof : bool) : opts =
+  { has_registry = (r <> None);
+    lookup_tag = (match r with Some st -> (fun t -> reg_lookup st t) | None -> (fun _ -> None));
+    reader_mode = mode; has_eof_value = eof }
+
+(* external-type callbacks by kind: 0/2 = pointer equality, 1/3 = always equal, 5/6 = equal modulo 1000;
+   hash: 0 = the pointer, 1 = constant 7, 5 = pointer mod 1000, 2/3/6 = none (pointer hash) *)
+let ext_eq_of (k : int) : z -> z -> bool =
+  match k with
+  | 1 | 3 -> (fun _ _ -> true)
+  | 5 | 6 -> (fun a b -> Z.eqb (Z.modulo a (z_of_int 1000)) (Z.modulo b (z_of_int 1000)))
+  | _ -> (fun a b -> Z.eqb a b)
+let ext_hash_of (k : int) : (z -> z) option =
+  match k with
+  | 0 -> Some (fun d -> d)
+  | 1 -> Some (fun _ -> z_of_int 7)
+  | 5 -> Some (fun d -> Z.modulo d (z_of_int 1000))
+  | _ -> None
+
 let run_script (c : cfg) (text : string) : string =
   Array.fill handles 0 16 None;
-  let eqf = equal c no_ext_equal in
+  let tab = ref [] in
+  let xe (t : z) = match ext_lookup !tab t with Some k -> Some (ext_eq_of (int_of_z k)) | None -> None in
+  let xh (t : z) = match ext_lookup !tab t with Some k -> ext_hash_of (int_of_z k) | None -> None in
+  let no_ext_equal = xe and no_ext_hash = xh in
+  let eqf a b = equal c xe a b in
   let ops = List.filter (fun s -> s <> "") (String.split_on_char ';' text) in
   let outs = List.map (fun op ->
       let k = op.[0] in
@@ -210,6 +244,28 @@ let run_script (c : cfg) (text : string) : string =
             | Some v, EOk -> handles.(h) <- Some v; "ok"
             | _, e -> handles.(h) <- None; "err:" ^ ecode_name e)
          | _ -> "modelfail")
+      | 'R' ->
+        (* R<h>=<hex>: read with the registry x:4,y:0 and the external-type table as it is now *)
+        let i = String.index a '=' in
+        let h = int_of_string (String.sub a 0 i) in
+        let arr = bytes_of_hex (String.sub a (i + 1) (String.length a - i - 1)) in
+        let o = opts_of (parse_registry "x:4,y:0") Z0 false in
+        (match run_doc_x c o xe xh (mem_of arr) (n_of_int (Array.length arr)) with
+         | Ret (r, _) ->
+           (match r.r_value, r.r_err with
+            | Some v, EOk -> handles.(h) <- Some v; "ok"
+            | _, e -> handles.(h) <- None; "err:" ^ ecode_name e)
+         | _ -> "modelfail")
+      | 'X' ->
+        (* X r<id>:<k> | u<id> : external-type table operations *)
+        (match a.[0] with
+         | 'r' ->
+           let b = String.sub a 1 (String.length a - 1) in
+           let i = String.rindex b ':' in
+           let k = int_of_string (String.sub b (i + 1) (String.length b - i - 1)) in
+           if k = 4 then "0" else begin tab := ext_register !tab (z_of_dec (String.sub b 0 i)) (z_of_int k); "1" end
+         | 'u' -> tab := ext_unregister !tab (z_of_dec (String.sub a 1 (String.length a - 1))); "-"
+         | _ -> "badop")
       | 'F' -> handles.(int_of_string a) <- None; "freed"
       | 'H' ->
         let (h, p) = parse_ref a in
@@ -327,22 +383,6 @@ let run_arena (text : string) : string =
       let (r, a') = arena_alloc malloc_ok !a req in
       a := a';
       match r with Some _ -> "ok" | None -> "NULL") (String.split_on_char ',' text))
-
-(* the registry named by a spec is the result of REGISTERING its items in order (a repeated tag is a
-   re-registration), through the registry model proved to be a finite map *)
-let parse_registry (s : string) : registry option =
-  if s = "-" then None
-  else if s = "+" then Some reg_empty
-  else
-    Some (List.fold_left (fun r item ->
-        match String.split_on_char ':' item with
-        | [t; h] -> reg_register r (coq_bytes_of_string t) (z_of_int (min 5 (int_of_string h)))
-        | _ -> failwith "bad registry") reg_empty (String.split_on_char ',' s))
-
-let opts_of (r : registry option) (mode : z) (eof : bool) : opts =
-  { has_registry = (r <> None);
-    lookup_tag = (match r with Some st -> (fun t -> reg_lookup st t) | None -> (fun _ -> None));
-    reader_mode = mode; has_eof_value = eof }
 
 let pos3 ((a, b), c) = Printf.sprintf "%d,%d,%d" (int_of_n a) (int_of_n b) (int_of_n c)
 
